@@ -451,7 +451,17 @@ def collect_variable_lookup(
     ##
 
     if resolved_kwargs is not None:
-        variable_lookup.append(resolved_kwargs)
+        # Only the parameters of the condition are bound to the arguments of the call. Any other name
+        # in the condition refers to the closure or to the globals, even if the function
+        # has an argument of the same name.
+        parameters = inspect.signature(condition).parameters
+        variable_lookup.append(
+            {
+                name: value
+                for name, value in resolved_kwargs.items()
+                if name in parameters
+            }
+        )
 
     ##
     # Add closure to the lookup
